@@ -2,7 +2,6 @@ package machine
 
 import (
 	"fmt"
-	"maps"
 	"slices"
 	"strings"
 	"sync"
@@ -95,7 +94,11 @@ func newTransition(m *Machine, mut *Mutation) *Transition {
 
 	activeStates := slices.Clone(m.activeStates)
 	t.cacheStatesBefore.Store(&activeStates)
-	clock := maps.Clone(m.clock)
+	// every state, also those a grown schema has added and nothing ticked yet
+	clock := make(Clock, len(index))
+	for _, name := range index {
+		clock[name] = m.clock[name]
+	}
 	t.cacheClockBefore.Store(&clock)
 	t.IsAccepted.Store(true)
 
